@@ -17,11 +17,17 @@
 (*      dflt=7 din={k:5,r:1} de=GREEN):Int                                 *)
 (*  Q.gni(ni:Int!) gne(ne:E!) gnli(nli:[Int]!) gnin(nin:In!) : Int          *)
 (*  type M { a:Int b:Int c:Int o:O l:[O] }                                 *)
+(*  Q.d:D dl:[D]  type D { p:String q:Int r:String }  -- no resolvers: DefaultResolveFn on a map   *)
+(*  Q.it:IT itl:[IT] ta:TA  interface IT (no ResolveType) { x }  TA, TB implement IT with IsTypeOf *)
 (***************************************************************************)
 EXTENDS GQLBase
 
+\* isTypeOf: the object type has an IsTypeOf function (accepting exactly sources of its own runtime type)
+\* noRT: the abstract type has no ResolveType (the default resolution tries the implementers' IsTypeOf)
+\* plain: the object's fields have no resolver (DefaultResolveFn reads a map source by field name)
 LOCAL Ty(kind) == [kind |-> kind, fields |-> <<>>, ifaces |-> <<>>, members |-> <<>>,
-                   values |-> <<>>, inputs |-> <<>>, defrt |-> ""]
+                   values |-> <<>>, inputs |-> <<>>, defrt |-> "",
+                   isTypeOf |-> FALSE, noRT |-> FALSE, plain |-> FALSE]
 LOCAL F(n, t) == [name |-> n, type |-> t, args |-> <<>>]
 LOCAL Arg(n, t) == [name |-> n, type |-> t, hasDef |-> FALSE, def |-> NullV]
 LOCAL ArgD(n, t, d) == [name |-> n, type |-> t, hasDef |-> TRUE, def |-> d]
@@ -37,6 +43,7 @@ S1 ==
                  F("ln", TList(TNN(N("O")))), F("lnn", TNN(TList(TNN(N("O"))))),
                  F("i", N("I")), F("u", N("U")), F("il", TList(N("I"))), F("e", N("E")),
                  F("ll", TList(TList(N("O")))),
+                 F("d", N("D")), F("dl", TList(N("D"))), F("it", N("IT")), F("itl", TList(N("IT"))), F("ta", N("TA")),
                  [name |-> "f", type |-> N("Int"),
                   args |-> << ArgD("x", N("Int"), IntV("7")), Arg("y", N("Int")),
                               Arg("z", TList(N("Int"))), Arg("in", N("In")), Arg("en", N("E")) >>],
@@ -65,6 +72,13 @@ S1 ==
                                  !.ifaces = <<"I">>],
      B |-> [Ty("OBJECT") EXCEPT !.fields = << F("x", N("String")), F("q", N("String")) >>,
                                  !.ifaces = <<"I">>],
+     D |-> [Ty("OBJECT") EXCEPT !.fields = << F("p", N("String")), F("q", N("Int")), F("r", N("String")) >>,
+                                 !.plain = TRUE],
+     IT |-> [Ty("INTERFACE") EXCEPT !.fields = << F("x", N("String")) >>, !.defrt = "TA", !.noRT = TRUE],
+     TA |-> [Ty("OBJECT") EXCEPT !.fields = << F("x", N("String")), F("p", N("String")) >>,
+                                  !.ifaces = <<"IT">>, !.isTypeOf = TRUE],
+     TB |-> [Ty("OBJECT") EXCEPT !.fields = << F("x", N("String")), F("q", N("String")) >>,
+                                  !.ifaces = <<"IT">>, !.isTypeOf = TRUE],
      U |-> [Ty("UNION") EXCEPT !.members = <<"A", "B">>, !.defrt = "A"],
      E |-> [Ty("ENUM") EXCEPT !.values =
               << [name |-> "RED", internal |-> "red#0", deprecated |-> FALSE],
